@@ -6,7 +6,7 @@
    modelled: see the evidence for how the implementation itself is exercised (recover + watchdog). *)
 From Coq Require Import ZArith Bool.
 From Apd Require Import Generated.Consts Model.Base Model.NumDigits Model.Decimal Model.Context Model.Text Model.Conv Spec.SpecZ
-  Proofs.Core Proofs.SetExponent Proofs.RoundSpec Proofs.OpsProofs Proofs.TotalProofs.
+  Proofs.Core Proofs.SetExponent Proofs.RoundSpec Proofs.OpsProofs Proofs.TotalProofs Proofs.Accept.
 Open Scope Z_scope.
 
 Theorem C04_numdigits_total est : est_in_range est -> forall b, total (num_digits_with est b).
@@ -50,6 +50,17 @@ Theorem C04_parsed_value_well_formed s d : set_string_raw s = Some d ->
   0 <= coeff d /\ (form_of d <> Finite -> coeff d = 0 /\ exp d = 0).
 Proof. exact (parse_well_formed s d). Qed.
 Print Assumptions C04_parsed_value_well_formed.
+
+(* ... through the entry points (NewFromString, SetString, UnmarshalText, Scan), for EVERY byte string: a value
+   comes back only with no condition and no error, and it has a non-negative coefficient, a valid form, and -
+   when finite - exponent and adjusted exponent inside the package limits *)
+Theorem C04_new_from_string_well_formed est : est_in_range est -> forall s d f e,
+  new_from_string est s = Ok (Some (d, f, e)) ->
+  set_string_raw s = Some d /\ f = c0 /\ e = ENone /\ 0 <= coeff d /\
+  (form_of d = Finite -> in_lim (exp d) /\ in_lim (exp d + ndigits (coeff d) - 1)) /\
+  (form_of d <> Finite -> coeff d = 0 /\ exp d = 0).
+Proof. exact (new_from_string_well_formed est). Qed.
+Print Assumptions C04_new_from_string_well_formed.
 
 (* the negative NumDigits argument wider than 128 bits that used to dereference nil *)
 Example C04_numdigits_negative_wide : num_digits (- 2 ^ 200) = Ok 61.
